@@ -232,6 +232,9 @@ class Exec:
       self.define(t.id, v)
     elif isinstance(t, ast.Attribute) and ast.unparse(t.value) == "self":
       self.define(t.attr, v, force=True)
+    elif isinstance(t, ast.Tuple) and v == "__shape__" and all(isinstance(e, ast.Name) for e in t.elts):
+      for e in t.elts:            # num_points, dim = points_to_sample.shape: sizes only feed numpy.zeros initialisers
+        self.env[e.id] = "__dim__"
     elif isinstance(t, ast.Tuple) and isinstance(v, tuple) and len(v) == len(t.elts):
       for e, x in zip(t.elts, v):
         self.assign(e, x, st)
